@@ -66,3 +66,21 @@ Print Assumptions C16_other_messages_nothing.
 Theorem C16_disabled_nothing : forall ops s, filter is_req (sr_trace false s ops) = [].
 Proof. exact trace_disabled. Qed.
 Print Assumptions C16_disabled_nothing.
+
+(* ---- tie by translation (gen/SrcGomavlib.v regenerated from the source on every run) ---- the
+   constants of node_heartbeat.go and node_stream_request.go and the defaults of Node.Initialize
+   are the model's: CRC_EXTRA 50 and 148, ids 0 and 66, 30 s (period and cleaner tick), system type
+   6, rate 4, ArduPilot = 3, the seven streams, start = 1, state 4 *)
+From Coq Require Import ZArith.
+From GM Require Import SrcGomavlib SrcNodeTie.
+Theorem C16_source_constants :
+  (Z.of_N heartbeat_crc = c_gomavlib_heartbeatCRC /\ c_gomavlib_heartbeatID = 0 /\
+   Z.of_N rds_crc = c_gomavlib_requestDataStreamCRC /\ c_gomavlib_requestDataStreamID = 66 /\
+   Z.of_N sr_period * 1000000000 = c_gomavlib_streamRequestPeriod /\
+   Z.of_N sr_period * 1000000000 = a_gomavlib_nodeStreamRequest_run_NewTicker /\
+   Z.of_N (eff_systype 0) = d_gomavlib_Node_Initialize_HeartbeatSystemType /\
+   Z.of_N (eff_freq 0) = d_gomavlib_Node_Initialize_StreamRequestFrequency /\
+   k_gomavlib_nodeStreamRequest_onEventFrame = [0; 3; 30000000000; 1; 2; 3; 6; 10; 11; 12; 1] /\
+   k_gomavlib_nodeHeartbeat_run = [0; 0; 4])%Z.
+Proof. exact src_heartbeat_constants. Qed.
+Print Assumptions C16_source_constants.
